@@ -61,10 +61,28 @@ pub fn gate_short_name(id: &str) -> String {
     id.chars().take_while(|c| c.is_ascii_alphanumeric() || *c == '_').collect()
 }
 
-pub fn build_circ(p: &Program, cfg: &CircuitConfig) -> Result<Circ, String> {
+pub fn build_circ(p: &Program, cfg: &CircuitConfig) -> Result<Circ, String> { build_circ_with(p, cfg, 0) }
+
+/// The circuit of `p` followed by `extra_muls` chained multiplications by the first input: a way to
+/// reach a gate count that is exactly a power of two, so that the builder adds NO padding NoopGate and
+/// the sorted gate list starts with a real gate.
+pub fn build_circ_unpadded(p: &Program, cfg: &CircuitConfig) -> Option<(Circ, usize)> {
+    for extra in (0..1200).step_by(4) {
+        if let Ok(c) = build_circ_with(p, cfg, extra) {
+            if !c.gate_names.iter().any(|g| g == "NoopGate") && c.n <= 128 { return Some((c, extra)); }
+        }
+    }
+    None
+}
+
+pub fn build_circ_with(p: &Program, cfg: &CircuitConfig, extra_muls: usize) -> Result<Circ, String> {
     let r = catch_unwind(AssertUnwindSafe(|| {
         let mut b = CircuitBuilder::<F, D>::new(cfg.clone());
         let ins = dsl::build(p, &mut b);
+        if extra_muls > 0 {
+            let mut acc = ins[0];
+            for _ in 0..extra_muls { acc = b.mul(acc, ins[0]); }
+        }
         (b.build::<C>(), ins)
     }));
     let (data, ins) = r.map_err(|_| format!("builder panic {}", panic_site()))?;
@@ -119,9 +137,18 @@ impl Circ {
     pub fn row_gate_violation(&self, m: &Matrix, row: usize, pih: &HashOut<F>) -> Option<usize> {
         let lc: Vec<FE> = self.consts[row].iter().map(|x| FE::from(*x)).collect();
         let lw: Vec<FE> = m[row].iter().map(|x| FE::from(*x)).collect();
+        // The row's own gate (decoded from the selector columns by build_circ), evaluated directly through
+        // Gate::eval_unfiltered on the constants after the selector prefix: independent of the loop, the
+        // filters and the selector handling of plonk/vanishing_poly.rs, which are what is being judged.
+        let prefix = self.data.common.selectors_info.num_selectors() + self.data.common.num_lookup_selectors;
+        let vars = EvaluationVars { local_constants: &lc[prefix..], local_wires: &lw, public_inputs_hash: pih };
+        let cs = self.data.common.gates[self.row_gate[row]].0.eval_unfiltered(vars);
+        if let Some(i) = cs.iter().position(|c| *c != FE::ZERO) { return Some(i); }
+        // cross-check with the library's combined evaluator (all gates with their filters): it must not see
+        // a violation where the row's gate sees none
         let vars = EvaluationVars { local_constants: &lc, local_wires: &lw, public_inputs_hash: pih };
-        let cs = evaluate_gate_constraints::<F, D>(&self.data.common, vars);
-        cs.iter().position(|c| *c != FE::ZERO)
+        let all = evaluate_gate_constraints::<F, D>(&self.data.common, vars);
+        all.iter().position(|c| *c != FE::ZERO).map(|i| 1000 + i)
     }
 
     /// copy constraints as committed in the sigma polynomials
@@ -451,6 +478,10 @@ pub fn run_program(w: &mut dyn Write, r: &mut Rng, pi: usize, cname: &str, cfg: 
         Ok(c) => c,
         Err(e) => { writeln!(w, "c02honest {pi} {cname} = 0 # build failed: {e}").unwrap(); return 1; }
     };
+    run_program_on(w, r, pi, cname, cfg, p, tier, circ)
+}
+
+pub fn run_program_on(w: &mut dyn Write, r: &mut Rng, pi: usize, cname: &str, cfg: &CircuitConfig, p: &Program, tier: &str, circ: Circ) -> usize {
     // honest assignment
     let honest = Corruption::default();
     let (part0, m0, pis0) = match corrupted_assignment(&circ, p, &honest) {
@@ -527,6 +558,19 @@ pub fn run_program(w: &mut dyn Write, r: &mut Rng, pi: usize, cname: &str, cfg: 
                     let cor = Corruption { cells: vec![(row, col, alt_value(r, m0[row][col].to_canonical_u64()))], ..Default::default() };
                     if cx.run_case(w, r, &class, &cor) { done += 1; if done >= (if thorough { 2 } else { 1 }) { break; } }
                 }
+            }
+            // an output cell that is ALONE in its copy class (e.g. a constant nobody uses): only this row's gate
+            // constraints can object to its corruption
+            let lonely: Vec<usize> = (0..circ.routed()).filter(|c| !ins.contains(c) && circ.sigma[row][*c] == (row, *c)).collect();
+            // (most lonely cells of a row are unused routed wires: walk the columns until one is constrained)
+            let pih0 = hash_pis(&pis0);
+            for &col in lonely.iter() {
+                let v = alt_value(r, m0[row][col].to_canonical_u64());
+                let mut m1 = m0.clone();
+                m1[row][col] = F::from_canonical_u64(v);
+                if circ.row_gate_violation(&m1, row, &pih0).is_none() { continue; }
+                let cor = Corruption { cells: vec![(row, col, v)], ..Default::default() };
+                if cx.run_case(w, r, &format!("{}.lonely-output", circ.gate_names[gi]), &cor) { break; }
             }
             // the gate's output wire set by the adversary BEFORE generation (generator conflict ignored)
             let outs: Vec<usize> = (0..circ.routed()).filter(|c| !ins.contains(c)).collect();
@@ -680,19 +724,34 @@ pub fn run(seed: u64, tier: &str, w: &mut dyn Write) -> usize {
     let mut plan: Vec<(&str, CircuitConfig, u32, usize)> = vec![];
     let by = |name: &str| cfgs.iter().find(|c| c.0 == name).unwrap().1.clone();
     let ex = extra_configs();
-    plan.push(("std_small", by("std_small"), 31, 24));
+    plan.push(("std_small", by("std_small"), 127, 24));
     plan.push(("qdf7", ex[0].1.clone(), 31, 20));
+    plan.push(("std_small", by("std_small"), 97, 20));
     plan.push(("arity2_cap1_c3", by("arity2_cap1_c3"), 23, 16));
     plan.push(("qdf12_rate4", ex[1].1.clone(), 23, 18));
     if thorough {
         plan.push(("zk", by("zk"), 31, 30));
         plan.push(("fixed_12", by("fixed_12"), 15, 40));
-        plan.push(("narrow", narrow_config(), 31, 24));
+        plan.push(("narrow", narrow_config(), 127, 24));
         plan.push(("qdf7", ex[0].1.clone(), 7, 40));
         plan.push(("std_small", by("std_small"), 17, 12));
         plan.push(("qdf12_rate4", ex[1].1.clone(), 19, 30));
         plan.push(("std_small", by("std_small"), 31, 100));
         plan.push(("arity1_cap0", by("arity1_cap0"), 15, 140));
+    }
+    // circuits whose gate count is exactly a power of two: no padding NoopGate, the sorted gate list starts
+    // with a real gate (no zero knowledge, no lookups)
+    for (k, (size, kinds)) in [(6usize, 9u32), (10, 11), (14, 15)].iter().enumerate() {
+        if !thorough && k >= 2 { break; }
+        let p = gen_program(&mut r, *size, *kinds);
+        let cfg = by("std_small");
+        match build_circ_unpadded(&p, &cfg) {
+            Some((circ, extra)) => {
+                writeln!(w, "c02info unpadded{k} rows={} gates={:?} extra_muls={extra}", circ.n, circ.gate_names).unwrap();
+                n += run_program_on(w, &mut r, 90 + k, "std_small_unpadded", &cfg, &p, tier, circ);
+            }
+            None => { writeln!(w, "c02info unpadded{k} no power-of-two gate count found").unwrap(); }
+        }
     }
     for (pi, (cname, cfg, kinds, size)) in plan.iter().enumerate() {
         let p = gen_program(&mut r, *size, *kinds);
